@@ -264,48 +264,13 @@ def run_scenarios(ctx, scn_path, scns, label):
     return out, info
 
 
-COMPOSITION_TAGS = {"request_never_answered", "answer_without_request", "in_flight_never_resolved"}
+from props import composition as _composition
 
 
 def composition(ctx):
-    """impl -> spec for the composition: the REAL system built by SystemBuilder (engine + request
-    channel + ExecutionManager + MockExchange behind MockExecution + account feed) is driven with
-    opens (filling, rejected, unaffordable), cancels and cancel-orders commands under real
-    scheduling; the audit stream and the engine view after every event are validated against
-    BarterSystem.tla, ending with a quiescence line: nothing outstanding, nothing in flight."""
-    ctx.build("system")
-    runs = 6 if ctx.quick else 60
-    merged = ctx.path("trace_system.ndjson")
-    n_lines = 0
-    with open(merged, "w") as f:
-        for k in range(runs):
-            out = ctx.path("trace_system_%d.ndjson" % k)
-            ctx.harness("system", "record", "--seed", ctx.seed * 100 + k, "--rounds", 80 if ctx.quick else 120,
-                        "--latency", k % 4, "--out", out, timeout=300)
-            f.write(json.dumps({"a": "Reset", "run": k}) + "\n")
-            for l in ctx.read_trace(out):
-                f.write(json.dumps(l) + "\n")
-                n_lines += 1
-    lines = ctx.read_trace(merged)
-    clean = ctx.path("clean_system.ndjson")
-    found, keep = ctx.screen_anomalies(lines, clean, lambda l: l.get("anomaly"))
-    for n, d, seg in found:
-        ctx.violation("composition:anomaly", "real system run: %s [line %d]" % (d, n), {"kind": "system", "seed": ctx.seed, "run": seg[0].get("run")})
-    n, bad, _ = ctx.tlc_trace("Trace_BarterSystem", "Trace_BarterSystem.cfg", clean)
-    foreign = 0
-    for b in bad:
-        tags = set(ctx.last_tags.get(b, ["unconsumed"]))
-        own = tags & (COMPOSITION_TAGS | {"unconsumed"})
-        if not own:
-            foreign += 1      # e.g. engine_view: the engine's own order bookkeeping (C01 / C03)
-            continue
-        seg = ctx.segment(keep, b)
-        ctx.violation("composition:" + "+".join(sorted(own)),
-                      "real system (SystemBuilder + MockExchange): %s at %s - not a behaviour of BarterSystem.tla [run %s, line %d]" % (
-                          sorted(own), json.dumps(keep[b - 1]), seg[0].get("run"), b),
-                      {"kind": "system", "seed": ctx.seed, "run": seg[0].get("run")})
-    ctx.cov["traces_validated_against_impl"] += runs
-    ctx.cov["composition"] = {"runs": runs, "lines": n_lines, "rejected_lines_owned_by_other_properties": foreign}
+    """impl -> spec for the composition (see props/composition.py); C07 owns: every accepted request
+    answered exactly once, nothing outstanding and nothing in flight at quiescence."""
+    _composition.run(ctx, _composition.C07_TAGS)
 
 
 def check(ctx):
